@@ -1,3 +1,31 @@
+//! yv-g16: conformance harness of the specification-growth module G16
+//! (process groups and the controlling terminal under job control,
+//! spec/ProcGroups.tla).
+//!
+//!   yv-g16 run --scn JSON [--prefix a,b,c] [--text] [--debug]
+//!   yv-g16 explore --in gen.ndjson --out trace.ndjson [--threads N] [--dfs-depth D] [--max-dfs K] [--random R]
+//!   yv-g16 random --n N --out trace.ndjson [--threads N]
+//!   yv-g16 calls --in cases.ndjson --out trace.ndjson
+mod calls;
+mod explore;
+mod kern;
+mod kern_delegates;
+mod run;
+mod scen;
+mod sched;
+
 fn main() {
-    println!("stub");
+    yvcommon::real::maybe_child_main();
+    let args: Vec<String> = std::env::args().skip(1).collect();
+    let code = match args.first().map(|s| s.as_str()) {
+        Some("run") => explore::one(&args[1..]),
+        Some("explore") => explore::explore(&args[1..]),
+        Some("random") => explore::random(&args[1..]),
+        Some("calls") => calls::main(&args[1..]),
+        _ => {
+            eprintln!("usage: yv-g16 run|explore|random|calls ...");
+            2
+        }
+    };
+    std::process::exit(code);
 }
